@@ -5,7 +5,7 @@ from pathlib import Path
 R = Path("/verif")
 props = [json.loads(l) for l in (R / "properties.jsonl").read_text().splitlines() if l.strip()]
 kf = (R / "KNOWN_FINDINGS.txt").read_text().splitlines()
-print("| ID | theorems (pinned) | quick: evaluations / non-trivial | fixed in /repo | known findings | independent seeds caught |")
+print("| ID | theorems (pinned) | quick: evaluations / non-trivial | fixed in /repo | known findings | independent seeds reported (final run; by this or a neighbouring check) |")
 print("|---|---|---|---|---|---|")
 for p in props:
     pid = p["id"]
@@ -17,6 +17,6 @@ for p in props:
     seeds = []
     for m in sorted(glob.glob(str(R / "seeded" / f"{pid}-*seed*" / "meta.json"))):
         d = json.load(open(m))
-        seeds.append((os.path.basename(os.path.dirname(m)).split("-", 1)[1], bool(d.get("caught_by"))))
+        seeds.append((os.path.basename(os.path.dirname(m)).split("-", 1)[1], bool(d.get("caught_by_final", d.get("caught_by")))))
     sc = f"{sum(1 for _, c in seeds if c)}/{len(seeds)}" if seeds else "-"
     print(f"| {pid} | {len(lock)} | {cov.get('evaluations', '?')} / {cov.get('distinct_nontrivial', '?')} | {', '.join(fixed) or '-'} | {', '.join(known) or '-'} | {sc} |")
